@@ -1026,7 +1026,7 @@ func Run(r *common.Run) error {
 	nFault := r.Pick(150, 3000)
 	for i := 0; i < nFault; i++ {
 		toks := genElement(rnd, 0, true, 0)
-		c.fault(cfgs[rnd.Intn(2)], pickS(rnd, []string{"reader", "tw", "badtok"}), toks, 1+rnd.Intn(len(toks)-1), genElement(rnd, 0, true, 0))
+		c.fault(cfgs[rnd.Intn(2)], pickS(rnd, []string{"reader", "tw", "badtok", "badend"}), toks, 1+rnd.Intn(len(toks)-1), genElement(rnd, 0, true, 0))
 	}
 	nConc := r.Pick(30, 300)
 	for i := 0; i < nConc; i++ {
